@@ -8,7 +8,7 @@ HEAD=$(git -C /repo rev-parse HEAD)
 cd "$WT" || exit 2
 git checkout -q -- remoc remoc_macro 2>/dev/null
 git checkout -q --detach "$HEAD" || exit 2
-DEMO=$(ls "$SD"/seed_*.rs | head -1); T=$(basename "$DEMO" .rs)
+DEMO=$(ls "$SD"/seed*.rs | head -1); T=$(basename "$DEMO" .rs)
 cp "$DEMO" remoc/tests/"$T".rs
 run_demo() { CARGO_NET_OFFLINE=true timeout 1200 cargo test --offline -j6 -p remoc --test "$T" >/tmp/confirm_$$.log 2>&1; echo $?; }
 A=$(run_demo)
